@@ -133,8 +133,10 @@ PROPS = {
     },
     "C03": {
         "module": "ZenonVerif.Props.C03",
-        "streams": [S("verify", 60, 2500)],
-        "rule": VERIFY_RULE,
+        "streams": [S("verify", 60, 2500), S("ledger", 24, 600)],
+        "rule": VERIFY_RULE + "; ledger stream (shared with C01/C04): the context facts the verifier reads are themselves checked "
+                "against the history — every send is received at most once and only by its addressee whatever its amount and token "
+                "(data-only and zero-amount sends, receives of contract-addressed sends, repeated receives in the same and in later momentums)",
         "partial": "SHA3/Ed25519/PoW hash, the embedded method table (plasma, ValidateSendBlock) and the regeneration of "
                    "contract blocks are oracle facts supplied by the harness from the real functions; descendant blocks of receive type are outside the model "
                    "(MODEL-GAP, never produced by the node); that the regenerated descendant blocks pass the nine checks "
@@ -202,7 +204,7 @@ PROPS = {
     },
     "C05": {
         "module": "ZenonVerif.Props.C05",
-        "streams": [S("election", 2000, 40000), S("ticker", 4000, 400000), S("mverify", 40, 300)],
+        "streams": [S("election", 2000, 40000), S("ticker", 4000, 400000), S("mverify", 40, 300), S("contract", 8, 120)],
         "rule": "election stream: delegation sets of 1..60 pillars (names: numbered / case variants / prefixes of one "
                 "another / arbitrary bytes / realistic; weights: all equal / all zero / few values / ZNN amounts / >64 bit "
                 "/ one heavy / distinct) x heights (small, uniform uint64, 2^63 and 2^64 boundaries) x (NodeCount,RandCount) "
@@ -215,7 +217,12 @@ PROPS = {
                 "mutation, the same re-hashed and re-signed by the elected pillar, re-timed, signed by a non-elected pillar or a "
                 "user, content dropped/duplicated/reordered) judged by the real Supervisor.ApplyMomentum and by the model, plus "
                 "GetMomentumBeforeTime at every timestamp +-1 s against the specification and the loop model, plus "
-                "GetMomentumProducer for all slots of two ticks on the caching instance and on a cold instance",
+                "GetMomentumProducer for all slots of three ticks on the caching instance and on a cold instance, and the schedule of "
+                "every tick re-computed in later rounds on a cold instance against the list first computed (a third of the rounds land "
+                "exactly on the first slot of a tick, so the next rounds compute a schedule while the frontier sits on its proof time). "
+                "contract stream (shared with C10): after every momentum of histories with pillar registrations, revocations and "
+                "delegations (also to pillars revoked later) ComputePillarDelegations, asked three times, against the sum of the ZNN "
+                "balances of the accounts whose delegation entry names each active pillar",
         "partial": "rand.Perm and sort.Sort are parameters (any permutation / any sorted permutation); hashes, ed25519 and the "
                    "momentum VM are oracle values; GetMomentumBeforeTime = specification is proved for whole-second instants "
                    "(all callers) and only as partial correctness for sub-second instants (the real loop can spin there: "
